@@ -126,6 +126,33 @@ def has_option_list(T):
 REDUCERS = ["count", "count_nonzero", "sum", "prod", "any", "all", "min", "max", "argmin", "argmax"]
 
 
+def reducer_dtype(red, dtype):
+    """element type of a reducer's result (NumPy's conventions on this platform)"""
+    if red in ("count", "count_nonzero", "argmin", "argmax"):
+        return "int64"
+    if red in ("any", "all"):
+        return "bool"
+    if red in ("min", "max"):
+        return dtype
+    if dtype.startswith("float"):
+        return dtype
+    return "uint64" if dtype.startswith("uint") else "int64"
+
+
+def expect_reduce(ref, what, red, dtype):
+    inner = expect_value(ref, what)
+    want = reducer_dtype(red, dtype)
+
+    def check(r):
+        bad = inner(r)
+        if bad:
+            return bad
+        if r.extra and r.extra != want:
+            return ("value", "%s: result element type %s, NumPy's convention gives %s" % (what, r.extra, want))
+        return None
+    return check
+
+
 def fam_reduce_ragged(rng):
     """C03 on ragged arrays.  argmin/argmax are driven only along the innermost axis, or the axis above it when
     no list level is optional and no IndexedArray sits in between (known findings KF-C03-argpos-*)"""
@@ -150,7 +177,7 @@ def fam_reduce_ragged(rng):
     mask, keep = rng.random() < 0.4, rng.random() < 0.3
     ref = R.reduce_typed(vals, T, axis, red, mask, keep)
     line = "reduce %s %d %d %d %s" % (red, axis, mask, keep, lay.tokens())
-    return Case(line, expect_value(ref, "%s(axis=%d, mask_identity=%s, keepdims=%s) of %r" % (red, axis, mask, keep, vals)),
+    return Case(line, expect_reduce(ref, "%s(axis=%d, mask_identity=%s, keepdims=%s) of %r" % (red, axis, mask, keep, vals), red, dtype),
                 {"value": vals, "type": T})
 
 
@@ -167,7 +194,7 @@ def fam_reduce_rect(rng):
     mask, keep = rng.random() < 0.4, rng.random() < 0.3
     ref = R.reduce_typed(vals, T, axis, red, mask, keep)
     line = "reduce %s %d %d %d %s" % (red, axis, mask, keep, lay.tokens())
-    return Case(line, expect_value(ref, "%s(axis=%d, mask_identity=%s, keepdims=%s) of %r" % (red, axis, mask, keep, vals)),
+    return Case(line, expect_reduce(ref, "%s(axis=%d, mask_identity=%s, keepdims=%s) of %r" % (red, axis, mask, keep, vals), red, dtype),
                 {"value": vals, "type": T})
 
 
